@@ -11,9 +11,12 @@ from .. import coqenc as q
 
 ID = 'C15'
 RULE = ('exhaustive small scope: every non-decreasing spike train up to the tier\'s length on a small sample '
-        'grid (identical times included) x every labelling over 3 (quick) / 4 (thorough, short trains) clusters x '
-        'binsize x half-window x caller cluster-id orders (one containing ids without spikes, and the '
-        'cluster_ids=None default) x symmetrize on/off; firing_rate over all labellings x id orders x dyadic '
+        'grid (identical times included) x every labelling over 3 clusters (4 on short trains in thorough); thorough: '
+        'x every binsize in {1,2,3} x half-window in {0..3} for trains up to 4 spikes (both symmetrize settings up to 3), '
+        'parameters cycling for longer trains; quick: trains up to 3 spikes with a hash-chosen half of the 12 '
+        '(binsize, half-window) settings per train x labelling, trains of 4 spikes with one setting each; caller '
+        'cluster-id orders (one containing ids without spikes, and the cluster_ids=None default), window sizes that '
+        'are and are not a multiple of 2*bin; firing_rate over all labellings x id orders x dyadic '
         'bin/duration; then a seeded random stream of long trains (many equal times, up to 300 (quick) / 2000 '
         '(thorough) spikes, dyadic and non-dyadic sample rates with exact time*rate). Non-trivial = at least '
         'one pair of spikes falls inside the window (some count is non-zero) / at least two spikes for '
@@ -131,8 +134,8 @@ def generate(tier, rng):
     quick = tier == 'quick'
     # ---- exhaustive small scope -----------------------------------------------------------------------
     # (a) full grid: trains x labellings x binsize x W; quick: the four (id order, symmetrize) settings
-    #     cycle over the grid (each occurs three times per train x labelling); thorough: both symmetrize
-    #     settings everywhere, id order alternating
+    #     are hash-chosen on half of the grid; thorough: the full grid, both symmetrize settings for trains
+    #     up to 3 spikes, one hash-chosen setting for 4 spikes, id order alternating
     kfull, gfull = (3, 5) if quick else (4, 5)
     orders3 = _id_orders(3, False)
     n = 0
@@ -146,10 +149,17 @@ def generate(tier, rng):
                     # window alternates between 2W*bin (exact) and (2W+1)*bin (int() truncates)
                     win = max(bs, (2 * W + ((n + bi) % 2)) * bs)
                     if quick:
-                        cases.append(_mk(t, labels, orders3[c % 2], 1, bs, win, c // 2))
-                    else:
+                        # quick: half of the (binsize, W) grid per train x labelling, alternating
+                        # (a fixed multiplicative hash decides which half, which id order, which symmetrize)
+                        h = ((n * 12 + bi * 4 + W) * 2654435761 % 2 ** 32) >> 13
+                        if h & 1:
+                            cases.append(_mk(t, labels, orders3[(h >> 1) & 1], 1, bs, win, (h >> 2) & 1))
+                    elif len(t) <= 3:
                         cases.append(_mk(t, labels, orders3[c % 2], 1, bs, win, False))
                         cases.append(_mk(t, labels, orders3[c % 2], 1, bs, win, True))
+                    else:
+                        h = ((n * 12 + bi * 4 + W) * 2654435761 % 2 ** 32) >> 13
+                        cases.append(_mk(t, labels, orders3[(h >> 1) & 1], 1, bs, win, (h >> 2) & 1))
     # (b) longer trains / more clusters: every train x labelling once, parameters cycling through the grid
     scopes = [(4, 4, 5, 3)] if quick else [(5, 5, 5, 3), (6, 6, 4, 2), (1, 4, 5, 4)]
     for kmin, kmax, gmax, nl in scopes:
@@ -274,7 +284,27 @@ def _ftok(x):
     return [n, -(d.bit_length() - 1)]
 
 
+# Circuit breaker for edits that make the shift loop spin forever: the pool turns each such case into a
+# 'Timeout' observation after TIMEOUT seconds, but thousands of them would keep the tier running for hours.
+# After two time-outs in a worker process, the remaining cases of that worker get a short limit (re-arming the
+# pool's SIGALRM timer, same handler, same 'Timeout' observation).  Never engages on a tree without time-outs.
+_TIMEOUTS = 0
+
+
 def run_case(case):
+    global _TIMEOUTS
+    if _TIMEOUTS >= 2:
+        import signal
+        signal.setitimer(signal.ITIMER_REAL, 0.5 if len(case['inp']['lab']) <= 64 else 5.0)
+    try:
+        return _run_case(case)
+    except BaseException as e:
+        if type(e).__name__ == 'CaseTimeout':
+            _TIMEOUTS += 1
+        raise
+
+
+def _run_case(case):
     import numpy as np
     k, i = case['kind'], case['inp']
     if k == 'ccg':
